@@ -353,6 +353,27 @@ func H07Templates() {
 		_, err = NewFilter(q)
 		vndAssert(err != nil, "dot-config-filter-rejected-inside-any-boolean-structure")
 	}
+	// value lists on .config
+	for _, q := range []string{".config:(" + string(w) + " OR b)", ".config:" + string(w) + " OR .config:b", "a:b OR .config:(x OR " + string(w) + ")"} {
+		_, err = NewFilter(q)
+		vndAssert(err != nil, "dot-config-filter-rejected-inside-any-boolean-structure")
+	}
+	// a bare list element may begin with '/' (only a value in a filter is a regexp there)
+	var pp3 ProjectionParser
+	f3, _ := NewFilter("*")
+	_, err = pp3.Parse("dir@(/tmp /home Y)", f3)
+	vndAssert(err == nil, "bare-list-element-may-begin-with-a-slash")
+	if err == nil {
+		vndAssert(h07Match(f3, h07Result("dir", "/tmp")) && h07Match(f3, h07Result("dir", "/home")) && !h07Match(f3, h07Result("dir", "tmp ")), "fixed-list-value-is-the-string")
+	}
+	pp3 = ProjectionParser{}
+	f3, _ = NewFilter("*")
+	_, err = pp3.Parse("dir@(/"+string(w)+" /home Y)", f3)
+	vndAssert(err == nil, "bare-list-element-may-begin-with-a-slash")
+	if err == nil {
+		vndAssert(h07Match(f3, h07Result("dir", "/"+string(w))), "fixed-list-value-is-the-string")
+		vndAssert(!h07Match(f3, h07Result("dir", string(w))), "fixed-list-value-is-the-string")
+	}
 	for _, q := range []string{"a,.unit", ".unit,a", "a,.unit@" + string(w), ".name .unit"} {
 		_, err = pp.Parse(q, filter)
 		vndAssert(err != nil, "dot-unit-projection-rejected-among-other-fields")
